@@ -225,73 +225,103 @@ Qed.
 
 (* ------------------------------------------------------------------ erasure of the ghost history *)
 Lemma erase_idem st : erase (erase st) = erase st.
+Proof.
+  destruct st as [u d ch cap ws bg np fifo strs cl hist]. unfold erase; simpl.
+  destruct (cl && negb d); reflexivity.
+Qed.
+
+Lemma erase_State u d ch cap ws bg np fifo strs cl hist :
+  erase (State u d ch cap ws bg np fifo strs cl hist) =
+  State u d ch cap ws bg np (if cl && negb d then [] else fifo) strs cl [].
 Proof. reflexivity. Qed.
 
 Lemma do_write_erase st w wr ks bad :
   map erase (do_write (erase st) w wr ks bad) = map erase (do_write st w wr ks bad).
 Proof.
-  destruct st as [u d ch cap ws bg np fifo strs cl hist].
-  unfold do_write, erase; simpl.
-  unfold bad_hits, valid_frame, group_of, kind_of; simpl.
-  repeat match goal with |- context [if ?c then _ else _] => destruct c end; reflexivity.
+  destruct st as [u d ch cap ws bg np fifo strs cl hist]. rewrite erase_State.
+  unfold do_write, bad_hits, valid_frame, group_of, kind_of; simpl st_chans; simpl st_closed;
+    simpl st_deadinlet; simpl st_fifo; simpl st_cap.
+  destruct (streams (w_mode wr)), cl, d; simpl andb; simpl negb; cbv iota;
+    repeat match goal with
+           | |- context [if ?c then _ else _] =>
+               lazymatch c with context [st_closed] => fail | _ => destruct c end
+           end; reflexivity.
 Qed.
 
 Lemma map_flat_map {A B C} (g : B -> C) (f : A -> list B) l :
   map g (flat_map f l) = flat_map (fun x => map g (f x)) l.
 Proof. induction l as [|x r IH]; simpl; [reflexivity|]. rewrite map_app, IH. reflexivity. Qed.
 
+Ltac case_all :=
+  repeat match goal with
+         | |- context [match ?c with _ => _ end] =>
+             lazymatch c with
+             | context [st_closed] => fail
+             | context [st_deadinlet] => fail
+             | _ => destruct c
+             end
+         end.
+
 Lemma vstep_erase st o : vstep_e (erase st) o = vstep_e st o.
 Proof.
   unfold vstep_e.
-  destruct st as [u d ch cap ws bg np fifo strs cl hist].
-  destruct o; unfold vstep, erase, driver_blocked; simpl;
+  destruct st as [u d ch cap ws bg np fifo strs cl hist]. rewrite erase_State.
+  destruct o; unfold vstep, driver_blocked; simpl st_closed; simpl st_strs;
     try (destruct (negb cl && existsb (fun ss : N * streamer => s_closing ss.2 && s_conn ss.2) strs); [reflexivity|]).
   - unfold open_writer_ok, kind_of; simpl.
-    repeat match goal with |- context [match ?c with _ => _ end] => destruct c end; reflexivity.
-  - unfold bg_active; simpl. destruct (alookup w bg); reflexivity.
-  - unfold bg_active; simpl. destruct (alookup w bg); reflexivity.
-  - unfold open_writer_of, bg_active; simpl.
-    destruct (alookup w ws) as [wr|]; [|reflexivity]. destruct (w_open wr); [|reflexivity].
-    destruct (alookup w bg); [reflexivity|].
-    apply (do_write_erase (State u d ch cap ws bg np fifo strs cl hist)).
-  - destruct cl; [reflexivity|]. destruct (alookup s strs); reflexivity.
-  - destruct cl; reflexivity.
-  - destruct cl; reflexivity.
-  - destruct cl; reflexivity.
-  - destruct cl; reflexivity.
-  - destruct cl; [reflexivity|]. unfold sync_ready; simpl.
-    match goal with |- context [if ?c then _ else _] => destruct c end; reflexivity.
-  - destruct cl; [reflexivity|]. rewrite !map_app. f_equal.
-    + destruct (length fifo <=? cap)%nat; reflexivity.
-    + destruct fifo as [|f q]; [reflexivity|]. rewrite !map_map. apply map_ext. intros; reflexivity.
-  - unfold open_writer_of, bg_active; simpl.
-    destruct (alookup w ws) as [wr|]; [|reflexivity]. destruct (w_open wr); [|reflexivity].
-    destruct (alookup w bg); reflexivity.
-  - destruct (alookup w bg) as [[|? ?]|]; reflexivity.
+    destruct cl, d; simpl; case_all; reflexivity.
+  - unfold bg_active; simpl. destruct cl, d; simpl; case_all; reflexivity.
+  - unfold bg_active; simpl. destruct cl, d; simpl; case_all; reflexivity.
+  - unfold open_writer_of, bg_active; simpl st_writers; simpl st_bg.
+    destruct (alookup w ws) as [wr|]; [|destruct cl, d; reflexivity].
+    destruct (w_open wr); [|destruct cl, d; reflexivity].
+    destruct (alookup w bg); [destruct cl, d; reflexivity|].
+    exact (do_write_erase (State u d ch cap ws bg np fifo strs cl hist) w wr keys bad).
+  - destruct cl, d; simpl; try reflexivity; destruct (alookup s strs); reflexivity.
+  - destruct cl, d; reflexivity.
+  - destruct cl, d; reflexivity.
+  - destruct cl, d; reflexivity.
+  - destruct cl, d; reflexivity.
+  - destruct cl, d; simpl; try reflexivity; unfold sync_ready; simpl; case_all; reflexivity.
+  - destruct cl, d; simpl; try reflexivity.
+    + rewrite !map_app. f_equal.
+      * destruct (length fifo <=? cap)%nat; reflexivity.
+      * destruct fifo as [|f q]; [reflexivity|]. rewrite !map_map. apply map_ext. intros; reflexivity.
+    + rewrite !map_app. f_equal.
+      * destruct (length fifo <=? cap)%nat; reflexivity.
+      * destruct fifo as [|f q]; [reflexivity|]. rewrite !map_map. apply map_ext. intros; reflexivity.
+  - unfold open_writer_of, bg_active; simpl st_writers; simpl st_bg.
+    destruct cl, d; simpl; case_all; reflexivity.
+  - simpl st_bg. destruct cl, d; simpl; case_all; reflexivity.
 Qed.
 
 Lemma hsucc_erase st : hsucc_e (erase st) = hsucc_e st.
 Proof.
   unfold hsucc_e, hsucc. rewrite !map_app.
-  destruct st as [u d ch cap ws bg np fifo strs cl hist]. unfold erase; simpl.
+  destruct st as [u d ch cap ws bg np fifo strs cl hist]. rewrite erase_State.
   f_equal; [|f_equal; [|f_equal]].
-  - unfold deliver_succs; simpl. destruct cl; [reflexivity|]. destruct fifo as [|f q]; [reflexivity|].
+  - unfold deliver_succs; simpl st_closed; simpl st_fifo; simpl st_strs.
+    destruct cl; [destruct d; reflexivity|]. simpl.
+    destruct fifo as [|f q]; [reflexivity|].
     rewrite !map_map. apply map_ext. intros; reflexivity.
-  - unfold apply_succs; simpl. rewrite !map_flat_map. apply flat_map_ext. intros [s x0]. simpl.
-    destruct (alookup s strs) as [x|]; [|reflexivity]. unfold can_apply; simpl.
-    match goal with |- context [if ?c then _ else _] => destruct c end; reflexivity.
-  - unfold disc_succs; simpl. rewrite !map_flat_map. apply flat_map_ext. intros [s x0]. simpl.
-    destruct (alookup s strs) as [x|]; [|reflexivity]. unfold can_disc; simpl.
-    match goal with |- context [if ?c then _ else _] => destruct c end; reflexivity.
-  - unfold bg_succs; simpl. rewrite !map_flat_map. apply flat_map_ext. intros [w kss0]. simpl.
+  - unfold apply_succs; simpl st_strs. rewrite !map_flat_map. apply flat_map_ext. intros [s x0]. simpl fst.
+    destruct (alookup s strs) as [x|]; [|reflexivity]. unfold can_apply; simpl st_closed.
+    destruct cl, d; simpl; try reflexivity; case_all; reflexivity.
+  - unfold disc_succs; simpl st_strs. rewrite !map_flat_map. apply flat_map_ext. intros [s x0]. simpl fst.
+    destruct (alookup s strs) as [x|]; [|reflexivity]. unfold can_disc; simpl st_closed.
+    destruct cl, d; simpl; try reflexivity; case_all; reflexivity.
+  - unfold bg_succs; simpl st_bg. rewrite !map_flat_map. apply flat_map_ext. intros [w kss0]. simpl fst.
     destruct (alookup w bg) as [[|ks rest]|]; try reflexivity.
-    unfold open_writer_of; simpl. destruct (alookup w ws) as [wr|]; [|reflexivity].
-    destruct (w_open wr); [|reflexivity].
-    apply (do_write_erase (State u d ch cap ws (aupdate w (fun _ => rest) bg) np fifo strs cl hist)).
+    unfold open_writer_of; simpl st_writers. destruct (alookup w ws) as [wr|]; [|destruct cl, d; reflexivity].
+    destruct (w_open wr); [|destruct cl, d; reflexivity].
+    exact (do_write_erase (State u d ch cap ws (aupdate w (fun _ => rest) bg) np fifo strs cl hist) w wr ks false).
 Qed.
 
-Lemma erase_measure st : measure (erase st) = measure st.
-Proof. reflexivity. Qed.
+Lemma erase_measure st : (measure (erase st) <= measure st)%nat.
+Proof.
+  destruct st as [u d ch cap ws bg np fifo strs cl hist]. unfold erase, measure; simpl.
+  destruct (cl && negb d); simpl; lia.
+Qed.
 Lemma erase_compat obs st : compat obs (erase st) = compat obs st.
 Proof. reflexivity. Qed.
 Lemma erase_observe st : observe (erase st) = observe st.
@@ -302,7 +332,7 @@ Proof. reflexivity. Qed.
 Lemma hsucc_e_measure st st' : In st' (hsucc_e st) -> (measure st' < measure st)%nat.
 Proof.
   unfold hsucc_e. intros H. apply in_map_iff in H. destruct H as (y & <- & Hy).
-  rewrite erase_measure. apply hsucc_measure. exact Hy.
+  pose proof (erase_measure y). apply hsucc_measure in Hy. lia.
 Qed.
 
 Lemma measure_zero_no_succ_e st : measure st = O -> hsucc_e st = [].
